@@ -81,7 +81,7 @@ def generate(rng, tier, index):
         sc = scenarios.schema_scenario(rng)
         sc.pop("ir", None)
     else:
-        sc = scenarios.config_scenario(rng)
+        sc = scenarios.config_scenario(rng, {"comp_src": 0.25})
     sc["prop"] = ID
     sc["rot"] = rng.randrange(1000)
     # configuration scenarios: one ConfigLoader object serves the faulty load,
